@@ -41,6 +41,9 @@ type Scenario struct {
 	// Sequential scenarios explore no alternatives (a single default execution each);
 	// they are grid points of an input/fault enumeration run under the controlled environment.
 	Sequential bool
+	// Extra, if set, is called after the scenario finished and returns further
+	// cases the scenario enumerated inside its executions (count and identities).
+	Extra func() (cases int64, keys []uint64)
 }
 
 type replay struct {
@@ -232,6 +235,7 @@ func parent(prop string, scs []Scenario) {
 	hits := map[string]sigHit{}
 	hitCount := map[string]int{}
 	var nSeqSamples int
+	var innerCases int64
 
 	for si := range scs {
 		sc := &scs[si]
@@ -301,6 +305,14 @@ func parent(prop string, scs []Scenario) {
 		}
 		boundDone[sc.Name] = completed
 		r.EvalN(int64(merged.Executions))
+		if sc.Extra != nil {
+			n, keys := sc.Extra()
+			r.EvalN(n)
+			for _, k := range keys {
+				r.DistinctHash(k)
+			}
+			innerCases += n
+		}
 		steps += int64(merged.Steps)
 		totalConflicting += merged.Conflicting
 		totalPruned += merged.Pruned
@@ -363,6 +375,7 @@ func parent(prop string, scs []Scenario) {
 	r.AddStates(int64(len(allFP))+1, steps+1)
 	r.AddTraces(r.Evaluations())
 	r.Set("scheduling_steps", steps)
+	r.Set("cases_enumerated_inside_executions", innerCases)
 	r.Set("pruned_by_fingerprint", totalPruned)
 	r.Set("executions_cut_at_known_state", totalCut)
 	r.Set("executions_with_conflicting_threads", totalConflicting)
